@@ -54,4 +54,39 @@ def sessionFrom (pending : List Byte) : List (List Byte) → List SEv
 
 def session (chunks : List (List Byte)) : List SEv := sessionFrom [] chunks
 
+/-! ### sessions whose calls may also be abandoned at the LAST await of `read()`
+
+`FrameReader.read` has a fourth await point after the three of the stream: `await Frame.create(…)`
+(class lookup, executor hop of helpers/factory.py).  A call that is abandoned THERE (its own
+READER_TIMEOUT, the caller's `wait_for`, cancellation) has consumed its whole frame and has passed
+every gate; nothing is delivered.  The next call is again `readFrame` on what the stream holds. -/
+
+/-- the caller's steps on one reader object -/
+inductive Step
+  | feed (c : List Byte)      -- bytes arrive
+  | calls                     -- `read()` again and again until a call blocks on the bytes that have arrived; that call is abandoned
+  | callAbandonedAtCreate     -- ONE call, abandoned if it gets as far as building the frame object (else it completes / blocks as usual)
+deriving Repr, DecidableEq
+
+/-- one call that is abandoned at `Frame.create` if it reaches it: events and what the stream still holds -/
+def callAtCreate (s : List Byte) : List SEv × List Byte :=
+  match blockedTaken s with
+  | some n => ([.abandoned n], s.drop n)
+  | none =>
+    let rf := readFrame s
+    match rf.1 with
+    | .delivered _ => ([.abandoned (s.length - rf.2.length)], rf.2)     -- consumed, every gate passed, never handed out
+    | .connLost => ([], s)                                              -- cannot occur: end of stream is not signalled inside a session
+    | o => ([.call o (s.length - rf.2.length)], rf.2)
+
+def sessionX (pending : List Byte) : List Step → List SEv
+  | [] => (readAll pending).map fun p => .call p.1 p.2
+  | .feed c :: st => sessionX (pending ++ c) st
+  | .calls :: st =>
+    let r := completed pending
+    r.1.map (fun p => SEv.call p.1 p.2) ++ [.abandoned r.2.1] ++ sessionX r.2.2 st
+  | .callAbandonedAtCreate :: st =>
+    let r := callAtCreate pending
+    r.1 ++ sessionX r.2 st
+
 end PlumVerif
